@@ -502,6 +502,84 @@ def check_document(doc, models, wanted, app, analyses, files):
     return v
 
 
+_JS_TYPES = {"String": "string", "Integer": "integer", "Boolean": "boolean", "Float": "number", "JSON": "object"}
+
+
+def check_emit_path(plan, probe):
+    """The SDK entry `cdd.compound.openapi.emit.openapi` (the other producer of documents named by the property's
+    anchors): one (name, JSON-schema, route, id, crud) entry per model of the plan, schema written by hand from the
+    model's columns.  E1-E4 as for the bulk path; E5: exactly C->POST on the collection, R->GET and D->DELETE on
+    `<route>/{id}` and no other operation; E6: components.schemas[name] is the given schema (minus its $-keys)."""
+    models = plan["models"]
+    entries = []
+    for i, m in enumerate(models):
+        cmd = next((c for c in plan["cmds"] if c["model"] % len(models) == i), None)
+        crud = cmd["crud"] if cmd and cmd["crud"] and not set(cmd["crud"]) - set("CRD") else "CRD"
+        route = route_of(m, (cmd["route"] if cmd and cmd["route"] in (1, 2) else 0))
+        props = {}
+        for c in m["cols"]:
+            d = {"type": _JS_TYPES.get(c["typ"], "string")}
+            if c.get("doc"):
+                d["description"] = c["doc"]
+            props[c["name"]] = d
+        pk = m["cols"][m["pk"]]["name"] if m["pk"] is not None else m["cols"][0]["name"]
+        schema = {"$id": "https://example.com/%s.schema.json" % m["name"].lower(), "type": "object",
+                  "description": m.get("doc") or "", "properties": props, "required": [pk]}
+        entries.append((m["name"], schema, route, pk, crud))
+    import cdd.compound.openapi.emit
+    from cdd.compound.openapi.utils.emit_openapi_utils import NameModelRouteIdCrud
+    try:
+        doc = cdd.compound.openapi.emit.openapi([NameModelRouteIdCrud(*json.loads(json.dumps(e))) for e in entries])
+    except Exception as e:
+        _bump(probe, "emit_path_raised_" + type(e).__name__)
+        return []
+    _bump(probe, "emit_path_document_checked")
+    v = []
+
+    def bad(clause, what, detail):
+        v.append({"clause": clause, "detail": "openapi() SDK emit of %s: %s" % (
+            [(e[0], e[2], e[3], e[4]) for e in entries], detail), "sig": {"what": what, "path": "sdk_emit"}})
+    try:
+        json.dumps(doc, allow_nan=False)
+    except (TypeError, ValueError, RecursionError) as e:
+        bad("E1", "not_json", "document is not JSON-serialisable: %s" % e)
+        return v
+    refs = []
+    _walk_refs(doc, "#", refs)
+    unresolved = sorted(set(ref for _, ref in refs if not _resolves(doc, ref)))
+    if unresolved:
+        bad("E3" if all(r.startswith("#/components/requestBodies/") for r in unresolved) else "E2", "unresolved_ref",
+            "$ref(s) that do not resolve inside the document: %s" % unresolved[:4])
+    paths = doc.get("paths") or {}
+    for p in sorted(paths):
+        item = paths[p] if isinstance(paths[p], dict) else {}
+        names = re.findall(r"\{([^{}/]*)\}", p)
+        declared = [q.get("name") for q in (item.get("parameters") or []) if isinstance(q, dict) and q.get("in") == "path"]
+        for k in [k for k in item if k in METHODS]:
+            declared += [q.get("name") for q in ((item[k] or {}).get("parameters") or [])
+                         if isinstance(q, dict) and q.get("in") == "path"]
+        missing = [n for n in names if n not in declared]
+        if missing:
+            bad("E4", "undeclared_path_param", "path %r: template parameter(s) %s not declared (declared: %s)" % (
+                p, missing, declared))
+    expected = set()
+    for name, schema, route, pk, crud in entries:
+        item_path = "%s/{%s}" % (route, pk)
+        for c in crud:
+            expected.add(("post", route) if c == "C" else ("get", item_path) if c == "R" else ("delete", item_path))
+    present = set((k, p) for p in paths for k in (paths[p] if isinstance(paths[p], dict) else {}) if k in METHODS)
+    if present != expected:
+        bad("E5", "operations_differ", "operations missing: %s; operations not requested: %s" % (
+            sorted(expected - present), sorted(present - expected)))
+    schemas = (doc.get("components") or {}).get("schemas") or {}
+    for name, schema, route, pk, crud in entries:
+        want = dict((k, x) for k, x in schema.items() if not k.startswith("$"))
+        if schemas.get(name) != want:
+            bad("E6", "schema_differs", "components.schemas[%r] is %s, the model given was %s" % (
+                name, json.dumps(schemas.get(name))[:300], json.dumps(want)[:300]))
+    return v
+
+
 def check_effects(before, after, events, allowed_rel):
     """E0 — asserted always: nothing but the routes file named on the command line is ever written."""
     v = []
@@ -692,6 +770,10 @@ def simulate(plan):
                             "events": [(e["kind"], e["path"] if e.get("inside") else "<outside>") for e in o.events if "io" in e],
                             "violated": sorted(set(x["clause"] for x in viols))})
         final_files = dict((f, world.read(f)) for f in ROUTE_FILES if world.exists(f))
+        ev = check_emit_path(plan, probe)
+        if ev:
+            res.violations += ev
+        stats["evaluations"] += 1
     finally:
         world.destroy()
     if not res.violations:
